@@ -117,6 +117,62 @@ theorem openlist_shape (cfg : OpenListCfg) (votes : Votes) (n : Nat) (clist : Li
   obtain ⟨r, hr, hlen, hnd, hmem⟩ := C16.openlist_length_distinct cfg votes n clist hwf hl hsub hn
   exact ⟨⟨r, hr, SelShape.of_cands hlen hnd hmem⟩, fun e he => by rw [hr] at he; cases he⟩
 
+/-- **ListOrderTieBreaker around Plurality**: with a party list naming every candidate of the votes the wrapper
+    always answers, with exactly `n` distinct candidates of the votes and no tie object left. -/
+theorem list_tiebreaker_shape (votes : Votes) (n : Nat) (clist : List Cand) (hwf : C09.WF votes)
+    (h1 : 1 ≤ n) (hlen : n ≤ votes.length) (hsub : ∀ c ∈ keys votes, c ∈ clist) :
+    ∃ r : List Cand, listOrderTieBreaker (fun v k => .ok (plurality v k)) votes n clist = .ok (r.map Slot.cand) ∧
+      SelShape (keys votes) n (r.map Slot.cand) := by
+  obtain ⟨A, L, k, hform, hnd, hmem, hk, hsum⟩ := getNBest_struct votes hwf n h1 hlen
+  have hAnd := (List.nodup_append.mp hnd).1
+  have hLnd := (List.nodup_append.mp hnd).2.1
+  rcases hk with hk | hk
+  · subst hk
+    refine ⟨A, ?_, SelShape.of_cands (by omega) hAnd (fun c hc => hmem c (List.mem_append_left _ hc))⟩
+    have hres : plurality votes n = A.map Slot.cand := by simpa [plurality] using hform
+    apply C16.list_tiebreak_no_tie _ _ _ _ _ (by simp only [hres])
+    simp [List.any_map, Function.comp_def, Slot.isTie]
+  · rcases Nat.eq_zero_or_pos k with hk0 | hk0
+    · subst hk0
+      refine ⟨A, ?_, SelShape.of_cands (by omega) hAnd (fun c hc => hmem c (List.mem_append_left _ hc))⟩
+      have hres : plurality votes n = A.map Slot.cand := by simpa [plurality] using hform
+      apply C16.list_tiebreak_no_tie _ _ _ _ _ (by simp only [hres])
+      simp [List.any_map, Function.comp_def, Slot.isTie]
+    · have hperm := (C16.sortByIndex_spec clist L).1
+      rw [dedupKeep_of_nodup hLnd] at hperm
+      refine ⟨A ++ (sortByIndex clist L).take k, ?_, SelShape.of_cands ?_ ?_ ?_⟩
+      · unfold listOrderTieBreaker
+        simp only [plurality, bind, Except.bind, hform]
+        have hany : (A.map Slot.cand ++ List.replicate k (Slot.tie L)).any Slot.isTie = true := by
+          rw [List.any_append]
+          obtain ⟨m, hm⟩ := Nat.exists_eq_succ_of_ne_zero (Nat.pos_iff_ne_zero.mp hk0)
+          rw [hm, List.replicate_succ, List.any_cons]
+          simp [Slot.isTie]
+        rw [if_pos hany, C16.break_by_list_nbest A L k clist
+          (fun c hc => hsub c (hmem c (List.mem_append_right _ hc)))
+          (by rw [dedupKeep_of_nodup hLnd]; omega)]
+        rfl
+      · rw [List.length_append, List.length_take, hperm.length_eq]; omega
+      · refine List.nodup_append.mpr ⟨hAnd, (hperm.nodup_iff.mpr hLnd).sublist (List.take_sublist _ _), ?_⟩
+        intro a ha b hb hab
+        subst hab
+        exact (List.nodup_append.mp hnd).2.2 a ha a (hperm.subset (List.mem_of_mem_take hb)) rfl
+      · intro c hc
+        rcases List.mem_append.mp hc with hc | hc
+        · exact hmem c (List.mem_append_left _ hc)
+        · exact hmem c (List.mem_append_right _ (hperm.subset (List.mem_of_mem_take hc)))
+
+/-- **AlternativeThresholds** over seat-less selectors: whenever it answers, distinct candidates, each passed by one
+    of the partial selectors (so candidates of the votes when the partial selectors have the seat-less shape) -/
+theorem alternative_threshold_shape (partials : List Seatless) (votes : Votes) (out : List Cand)
+    (h : alternativeThresholds partials votes = .ok out)
+    (hparts : ∀ f ∈ partials, ∀ r, f votes = .ok r → ∀ c ∈ r, c ∈ keys votes) :
+    SeatlessShape (keys votes) out := by
+  obtain ⟨_, _, _, hmem, hnd, _⟩ := C16.alternative_is_union partials votes out h
+  refine ⟨hnd, fun c hc => ?_⟩
+  obtain ⟨f, hf, r, hr, hcr⟩ := (hmem c).mp hc
+  exact hparts f hf r hr c hcr
+
 end thresholds
 
 /-! ### distributions -/
@@ -162,6 +218,45 @@ theorem ha_shape (cfg : HACfg) (h : CfgOK cfg) :
     · left; rw [haResult_sum]; have := ht.1; omega
     · right; exact hcap
 
+
+/-- **Highest averages never refuses a request with an eligible party**: the only error outcome of the model is the
+    `ValueError` of an empty initial pool (`zip(*[])`), i.e. no party of the votes is below its cap; for
+    `evaluate(votes, n)` with `n ≥ 1` and at least one party there is no error outcome at all. -/
+theorem ha_refusals (cfg : HACfg) (h : CfgOK cfg) :
+    (∀ e, highestAverages cfg = .error e → e = .valueError ∧ ∀ c, ¬ Elig0 cfg c) ∧
+    ((∃ c, Elig0 cfg c) → highestAverages cfg = .ok (haResult cfg)) ∧
+    (cfg.prev = [] → cfg.caps = [] → 1 ≤ cfg.n → cfg.votes ≠ [] → highestAverages cfg = .ok (haResult cfg)) := by
+  have hpool : (haInit cfg).pool = [] ↔ ∀ c, ¬ Elig0 cfg c := by
+    unfold haInit
+    simp only [List.filterMap_eq_nil_iff]
+    constructor
+    · intro hall c hc
+      obtain ⟨p, hp, rfl⟩ := List.mem_map.mp hc.1
+      have := hall p hp
+      rw [if_pos ⟨h.div_pos _, hc.2⟩] at this
+      cases this
+    · intro hno p hp
+      rw [if_neg]
+      rintro ⟨_, hlt⟩
+      exact hno p.1 ⟨List.mem_map.mpr ⟨p, hp, rfl⟩, hlt⟩
+  have hok : (∃ c, Elig0 cfg c) → highestAverages cfg = .ok (haResult cfg) := by
+    rintro ⟨c, hc⟩
+    unfold highestAverages
+    rw [if_neg (fun hp => (hpool.mp hp) c hc)]
+  refine ⟨?_, hok, ?_⟩
+  · intro e he
+    unfold highestAverages at he
+    split at he
+    · rename_i hp; injection he with he; exact ⟨he.symm, hpool.mp hp⟩
+    · cases he
+  · intro hprev hcaps hn hne
+    apply hok
+    obtain ⟨p, hp⟩ := List.exists_mem_of_ne_nil _ hne
+    refine ⟨p.1, List.mem_map.mpr ⟨p, hp, rfl⟩, ?_⟩
+    unfold HACfg.prevOf HACfg.capOf
+    rw [hprev, hcaps]
+    simp only [natLookup, List.find?_nil]
+    omega
 
 /-! ### largest remainder / quota distributor (model VL.QD of C02; `evaluate(votes, n_seats)`: no previous gains, no caps) -/
 
